@@ -625,7 +625,9 @@ theorem commit_ok (hlen : ∀ x, (H x).length = 32) (collapse : Int) (t : WT) {t
   obtain ⟨root, hasDb, store, oldRoot, deleted, tempDeleted, pending, created⟩ := t
   simp only at h hp
   by_cases hd : root.dirty = false
-  · exact ⟨root, [], by simp [commit, hd], by simp [commit, hd], by simp [commit, hd], CommitOK.skip h hp hd⟩
+  · refine ⟨root, [], ?_, ?_, by simp [commit, hd], CommitOK.skip h hp hd⟩
+    · simp only [commit, hd, Bool.not_false, if_true]; split <;> rfl
+    · simp only [commit, hd, Bool.not_false, if_true]; split <;> rfl
   · have hd' : root.dirty = true := by simpa using hd
     cases h with
     | nil => simp [WN.dirty] at hd'
